@@ -10,7 +10,8 @@ LEVEL = "exploration"
 ORACLES = ("dep_order", "values", "no_internal_error")
 RULE = (
     "cases = call-only DAG programs (2-9 call sites, <=3 dependencies each, drawn as positional / keyword / "
-    "activation-flag dependencies, three resources, priorities, sequential flags, max_concurrency 1..5, sync and async "
+    "activation-flag dependencies, indexed uses of pair results (a few with an index the pair does not have: the node "
+    "must then never be entered and the call must raise), three resources, priorities, sequential flags, max_concurrency 1..5, sync and async "
     "flavour) x schedule: free-running with drawn sleeps, controlled (completion order chosen by a drawn choice "
     "vector inside the scheduler's own wait calls) or the exhaustive choice tree for small cases; oracle: for every "
     "node ENTER every dependency that takes part has EXITed earlier, the arguments observed inside the node equal "
@@ -46,7 +47,7 @@ def run_case(case: Dict[str, Any]) -> CaseResult:
 def strategy(tier: str) -> Any:
     modes = ("ctl", "ctl", "free", "ctl-ex") if tier == "thorough" else ("ctl", "ctl", "free", "ctl-ex")
     return sc.sched_case(tier=tier, modes=modes, dep_kinds=("pos", "kw"), flags=True, seq_rate=0.15, prio=(-2, 4),
-                         config_rate=0.1, profile_rate=0.25)
+                         config_rate=0.1, profile_rate=0.25, index_rate=0.3, bad_index_rate=0.08)
 
 
 def run_shard(H: Harness) -> None:
